@@ -13,7 +13,7 @@ for d in sorted(os.listdir(SEEDED)):
     p = os.path.join(SEEDED, d)
     if not os.path.isdir(p) or (sel and not any(x in d for x in sel)):
         continue
-    if subprocess.run(['git', '-C', '/repo', 'apply', '--check', os.path.join(p, 'patch.diff')], capture_output=True).returncode != 0:
+    if subprocess.run(['git', '-C', os.environ.get('SEED_REPO', '/repo'), 'apply', '--check', os.path.join(p, 'patch.diff')], capture_output=True).returncode != 0:
         print('%-22s patch does not apply to the current tree: skipped' % d, flush=True)
         continue
     refactor = d.startswith('refactor-')
